@@ -227,3 +227,72 @@ def judge_validate(c):
 
 
 JUDGES["validate"] = judge_validate
+
+
+_W = {1: ("f32", 4), 2: ("u8", 1), 3: ("i8", 1), 4: ("u16", 2), 5: ("i16", 2), 6: ("i32", 4), 7: ("i64", 8),
+      9: ("bool", 1), 11: ("f64", 8), 12: ("u32", 4), 13: ("u64", 8)}
+_FIELD = {1: "float_data", 11: "double_data", 7: "int64_data", 12: "uint64_data", 13: "uint64_data",
+          2: "int32_data", 3: "int32_data", 4: "int32_data", 5: "int32_data", 6: "int32_data", 9: "int32_data"}
+
+
+def decode_spec(tp):
+    """what the TensorProto declares, from onnx.proto: (domain, dt, shape, bits)"""
+    code = tp["data_type"]
+    dims = tp.get("dims") or []
+    if code not in _W:
+        return ("mustRefuse", None, None, None, "unsupported element type")
+    dt, w = _W[code]
+    if any(d < 0 for d in dims):
+        return ("mustRefuse", None, None, None, "negative dim")
+    n = 1
+    for d in dims:
+        n *= d
+    typed = tp.get(_FIELD[code]) or []
+    raw = tp.get("raw") or []
+    if typed and raw:
+        return ("unspecified", None, None, None, "both encodings")
+    if typed:
+        if len(typed) != n:
+            return ("mustRefuse", None, None, None, "typed count mismatch")
+        if code == 9 and any(v not in (0, 1) for v in typed):
+            return ("unspecified", None, None, None, "non-binary bool")
+        bits = [v % (1 << (8 * w)) for v in typed]
+        return ("must", dt, dims, bits, "typed")
+    if len(raw) != n * w:
+        return ("mustRefuse", None, None, None, "raw length mismatch")
+    if code == 9:
+        bits = [1 if b > 0 else 0 for b in raw]
+    else:
+        bits = [sum(raw[i * w + k] << (8 * k) for k in range(w)) for i in range(n)]
+    return ("must", dt, dims, bits, "raw")
+
+
+def judge_decode(c):
+    impl, model = c["impl"], c["model"]
+    tp = c["p"]["tp"]
+    ex = impl.get("extra") if isinstance(impl.get("extra"), dict) else {}
+    ibits = ex.get("bits") or []
+    corr = "agree"
+    if impl["status"] != model["status"]:
+        corr = "disagree"
+    elif impl["status"] == "ok" and (ex.get("dt") != model.get("dt") or list(ex.get("shape") or []) != list(model.get("shape") or []) or list(ibits) != list(model.get("bits") or [])):
+        corr = "disagree"
+    dom, dt, shape, bits, why = decode_spec(tp)
+    verdict, what = "holds", ""
+    if impl["status"] == "panic":
+        verdict, what = "violates", "decoder panics: " + impl.get("msg", "")[:80]
+    elif dom == "mustRefuse" and impl["status"] != "error":
+        verdict, what = "violates", f"{why}: loaded as {ex.get('dt')}{ex.get('shape')} instead of being refused"
+    elif dom == "must":
+        if impl["status"] != "ok":
+            verdict, what = "violates", f"valid tensor refused: {impl.get('msg','')[:80]}"
+        elif ex.get("dt") != dt or list(ex.get("shape") or []) != list(shape) or list(ibits) != list(bits):
+            verdict, what = "violates", f"decoded as {ex.get('dt')}{ex.get('shape')} bits {str(ibits)[:60]}, declared {dt}{shape} bits {str(bits)[:60]}"
+    tag = None
+    if verdict == "violates":
+        tag = "decode." + why.replace(" ", "_") + "." + ("panic" if impl["status"] == "panic" else "wrong")
+    return J(corr=corr, verdict=verdict, tag=tag, what=what,
+             key=("decode", c.get("stream"), tp["data_type"], len(tp.get("dims") or []), impl["status"]))
+
+
+JUDGES["decode"] = judge_decode
